@@ -1,6 +1,7 @@
 from __future__ import annotations
 
 import abc
+import codecs
 import re
 from datetime import timezone, timedelta
 from functools import lru_cache
@@ -19,15 +20,35 @@ VariableSchema = Tuple[VariableType, Any, bool]
 
 DEFAULT = Default()
 
+
+def charset_name(value: Any) -> str:
+    """Variable type for character sets: only accept names that the server can actually encode/decode"""
+    name = str(value)
+    try:
+        codecs.lookup(CharacterSet[name].codec)
+    except (KeyError, LookupError) as e:
+        raise MysqlError(
+            f"Unknown character set: {name}", code=ErrorCode.WRONG_VALUE_FOR_VAR
+        ) from e
+    return name
+
+
+def timezone_name(value: Any) -> str:
+    """Variable type for time zones: only accept values that `parse_timezone` understands"""
+    name = str(value)
+    parse_timezone(name)
+    return name
+
+
 SYSTEM_VARIABLES: dict[str, VariableSchema] = {
     # name: (type, default, dynamic)
     "auto_increment_increment": (int, 1, True),
     "autocommit": (bool, True, True),
-    "character_set_client": (str, CharacterSet.utf8mb4.name, True),
-    "character_set_connection": (str, CharacterSet.utf8mb4.name, True),
-    "character_set_database": (str, CharacterSet.utf8mb4.name, True),
-    "character_set_results": (str, CharacterSet.utf8mb4.name, True),
-    "character_set_server": (str, CharacterSet.utf8mb4.name, True),
+    "character_set_client": (charset_name, CharacterSet.utf8mb4.name, True),
+    "character_set_connection": (charset_name, CharacterSet.utf8mb4.name, True),
+    "character_set_database": (charset_name, CharacterSet.utf8mb4.name, True),
+    "character_set_results": (charset_name, CharacterSet.utf8mb4.name, True),
+    "character_set_server": (charset_name, CharacterSet.utf8mb4.name, True),
     "collation_connection": (str, Collation.utf8mb4_general_ci.name, True),
     "collation_database": (str, Collation.utf8mb4_general_ci.name, True),
     "collation_server": (str, Collation.utf8mb4_general_ci.name, True),
@@ -45,7 +66,7 @@ SYSTEM_VARIABLES: dict[str, VariableSchema] = {
     "sql_mode": (str, "ANSI", True),
     "sql_select_limit": (int, None, True),
     "system_time_zone": (str, "UTC", False),
-    "time_zone": (str, "UTC", True),
+    "time_zone": (timezone_name, "UTC", True),
     "transaction_read_only": (bool, False, True),
     "transaction_isolation": (str, "READ-COMMITTED", True),
     "version": (str, "8.0.29", False),
@@ -133,7 +154,9 @@ def parse_timezone(tz: str) -> timezone:
         return timezone.utc
     match = RE_TIMEZONE.match(tz)
     if not match:
-        raise MysqlError(msg=f"Invalid timezone: {tz}")
+        raise MysqlError(
+            msg=f"Invalid timezone: {tz}", code=ErrorCode.WRONG_VALUE_FOR_VAR
+        )
     offset = timedelta(
         hours=int(match.group("hours")), minutes=int(match.group("minutes"))
     )
